@@ -9,8 +9,22 @@ use std::collections::BTreeMap;
 use std::path::{Path, PathBuf};
 use std::time::Instant;
 
-pub const VERIF_ROOT: &str = "/verif";
-pub const REPO_ROOT: &str = "/repo";
+/// Root of the verification tree (evidence, replays, known findings). `VMC_VERIF_ROOT` overrides
+/// it for development workspaces; registered checks run without the override.
+pub fn verif_root() -> PathBuf {
+    PathBuf::from(std::env::var("VMC_VERIF_ROOT").unwrap_or_else(|_| "/verif".to_string()))
+}
+/// Root of the repository under test (`VMC_REPO_ROOT` overrides for development workspaces).
+pub fn repo_root() -> PathBuf {
+    PathBuf::from(std::env::var("VMC_REPO_ROOT").unwrap_or_else(|_| "/repo".to_string()))
+}
+/// Directory holding the harness-built `veryl`, `veryl-ls` and `vmc` binaries.
+pub fn bin_dir() -> PathBuf {
+    std::env::current_exe()
+        .ok()
+        .and_then(|p| p.parent().map(|x| x.to_path_buf()))
+        .unwrap_or_else(|| PathBuf::from("/verif/.target/debug"))
+}
 
 #[derive(Clone, Copy, PartialEq, Eq, Debug)]
 pub enum Tier {
@@ -186,7 +200,7 @@ pub struct KnownFinding {
 }
 
 pub fn load_known_findings() -> Vec<KnownFinding> {
-    let path = Path::new(VERIF_ROOT).join("known_findings.jsonl");
+    let path = Path::new("/verif").join("known_findings.jsonl");
     let Ok(text) = std::fs::read_to_string(&path) else {
         return vec![];
     };
@@ -206,7 +220,7 @@ pub fn load_known_findings() -> Vec<KnownFinding> {
 
 fn repo_head() -> String {
     std::process::Command::new("git")
-        .args(["-C", REPO_ROOT, "rev-parse", "HEAD"])
+        .args(["-C", repo_root().to_str().unwrap(), "rev-parse", "HEAD"])
         .output()
         .ok()
         .map(|x| String::from_utf8_lossy(&x.stdout).trim().to_string())
@@ -215,7 +229,7 @@ fn repo_head() -> String {
 
 fn repo_dirty() -> Vec<String> {
     std::process::Command::new("git")
-        .args(["-C", REPO_ROOT, "status", "--porcelain"])
+        .args(["-C", repo_root().to_str().unwrap(), "status", "--porcelain"])
         .output()
         .ok()
         .map(|x| {
@@ -242,7 +256,7 @@ pub fn finish(ctx: &Ctx, mut rep: Report) -> i32 {
 
     let mut new_violations = 0usize;
     let mut known_hits = 0usize;
-    let replay_dir = Path::new(VERIF_ROOT).join("replays").join(&ctx.id);
+    let replay_dir = verif_root().join("replays").join(&ctx.id);
     let mut lines = Vec::new();
     let mut n = 0usize;
     for (sig, vs) in &by_sig {
@@ -313,7 +327,7 @@ pub fn finish(ctx: &Ctx, mut rep: Report) -> i32 {
         "violation_cases_total": total_violation_cases,
         "repo_head": repo_head(),
     });
-    let ev_dir = Path::new(VERIF_ROOT).join("evidence");
+    let ev_dir = verif_root().join("evidence");
     let _ = std::fs::create_dir_all(&ev_dir);
     let ev_path = ev_dir.join(format!("{}.json", ctx.id));
     if let Err(e) = std::fs::write(&ev_path, serde_json::to_string_pretty(&ev).unwrap()) {
